@@ -53,6 +53,8 @@ class System:
         self.csets = [A.curve_set(s, F, scale_step=(2.0 ** -19 + ai * 2.0 ** -20) if near else 0.125 + 0.0625 * ai)
                       for ai, s in enumerate(root["shapes_by_az"])]
         self.rtol = 1e-6 if near else RTOL
+        if root.get("rows_by_az"):          # explicit windows instead of named shapes
+            self.csets = [[list(map(float, r)) for r in rows] for rows in root["rows_by_az"]]
         self.nA = len(self.csets)
         self.W = len(self.csets[0])
         f = self.freq
@@ -89,6 +91,13 @@ class System:
 
     def _make(self, csets, az=None):
         hs = [HvsrTraditional(self.freq, c) for c in csets]
+        # ``az_values``: the azimuth VALUES of the root (two entries may carry the same value, 0 and 180 may both
+        # be present): every entry is an azimuth of its own and gets the weight 1 / number of entries
+        vals = self.root.get("az_values")
+        if az is None and vals:
+            az = list(vals)
+        elif az is not None and vals:
+            az = [vals[AZ_VALUES.index(a)] for a in az]
         return HvsrAzimuthal(hs, az or AZ_VALUES[:len(hs)])
 
     def initial(self, root):
@@ -364,6 +373,9 @@ def roots(tier, seed):
     out.append(dict(grid="lin", F=7, shapes_by_az=[["p3", "dead", "p4"], ["p2", "p3", "dead"]],
                     depth=2 if tier == "quick" else 3, ops_subset="MA", reaccept=True))
     out.append(dict(grid="lin", F=7, shapes_by_az=[["p3"] * 3, ["p3"] * 3], depth=1, near=True))
+    out.append(dict(grid="lin", F=7, shapes_by_az=[S[3][0], S[3][1], S[3][3]], depth=2 if tier != "quick" else 1,
+                    az_values=[10.0, 10.0, 55.0]))
+    out.append(dict(grid="lin", F=7, shapes_by_az=[S[3][1], S[3][0]], depth=2, az_values=[0.0, 180.0]))
     out.append(dict(grid="geo", F=7, shapes_by_az=[["twopk"] * 4, ["twopk"] * 4, ["twopk"] * 4], depth=1, near=True))
     if tier == "quick":
         out.append(dict(grid="lin", F=7, shapes_by_az=[S[2][0], S[2][1]], depth=3, touch=True, reaccept=True,
